@@ -234,6 +234,20 @@ def run(ctx):
                 cfgs = cfgs[:12]
             for cfg in cfgs:
                 jobs.append((g, cfg))
+    for j in range(1 if ctx.quick else 4):
+        # two jointly modelled files of very different size, an order-sensitive learner, no cap: the training table of a fold is the
+        # per-file tables in FILE order, however long each file takes to read (with several workers the small file is done first)
+        big = rows_from_shape([1 + k // 2 for k in range(700 + 100 * j)], rng)
+        small = rows_from_shape([1 + k // 2 for k in range(14)], rng, id0=5000)
+        for r in big + small:
+            r["f"] = [int(rng.normal(70, 8)) if (r["tgt"] and rng.random() < 0.75) else int(rng.normal(30, 8)), int(rng.integers(0, 50))]
+        inp = {"files": [{"rows": big}, {"rows": small}], "folds": 2 + j % 2, "thr": [1, 1], "train_thr": [1, 1], "seed": 40 + j, "est": "order",
+               "override": True, "keyw": 2, "cap": None}
+        g = len(groups)
+        groups.append({"kind": "brew", "input": inp, "learner": None, "tol": 0})
+        jobs.append((g, {"pred_chunk": 700000, "read_chunk": 200000, "workers": 1, "fmt": "pin"}))
+        for w, rc in ((2, 200000), (3, 50), (4, 200000), (4, 311), (2, 97), (3, 200000)):
+            jobs.append((g, {"pred_chunk": 700000, "read_chunk": rc, "workers": w, "fmt": "pin"}))
     for j in range(nc):
         inp = conf_input(rng, j)
         g = len(groups)
